@@ -27,6 +27,14 @@ CLAIMED['C08'] = dict(
          'state permutation. The balance start = success + failure + unwind then follows for every rule attempt of every grammar and input. One recorded finding (D11).',
     ref='4.3, 5/C08')
 
+CLAIMED['C13'] = dict(
+    technique='path enumeration of the switching rules with frame comparison at every rule boundary (abstract interpretation; typestate of the state object)',
+    text='FRAME + SCOPE (DESIGN.md 4.2): for state, change_state(s), change_action(_and_state(s)), change_control, add_state, instantiate, enable/disable(_action), '
+         'action, control and normal::match every path of every instantiation is enumerated; each rule-boundary call must replace exactly the documented frame '
+         'parameter; the new state is an automatic local, is what the sub-rule sees, and receives success exactly once iff the rule matched (and actions are enabled). '
+         'Holds for all grammars and inputs by induction over rule nesting, which the test-suite cannot enumerate.',
+    ref='4.2, 5/C13')
+
 NOT_YET = 'check not built yet in this round (see DESIGN.md section 10 for the order of construction); no claim is made'
 
 NA_REASONS = {}
